@@ -111,7 +111,7 @@ def run(ck):
     longs = longs[: (400 if quick else 6000)]
     pairs = [[i, j] for i in range(1, n + 1) for j in range(1, n + 1)]
     if quick:
-        pairs = [p for k, p in enumerate(pairs) if (k + ck.seed) % 2 == 0]
+        pairs = ck.rng.sample(pairs, len(pairs) // 2)       # (never select by index parity: with an odd n it is the parity of i + j)
     singles = [[i] for i in range(1, n + 1)]
     hists = singles + pairs + longs
     evs = []
